@@ -242,9 +242,11 @@ func faultSig(plan []Target) string {
 		return "last-fault=none"
 	}
 	tg := plan[len(plan)-1]
-	kind := map[int]string{vnet.Drop: "drop", vnet.Dup: "dup", vnet.Hold: "delay", vnet.Swap: "delay"}[tg.Kind]
 
-	return fmt.Sprintf("last-fault=%s:%s:%s", kind, tg.From, tg.Class)
+	// The kind of disturbance (lost, delayed, duplicated) is incidental to the root cause and, for
+	// failures whose targeted plan does not reproduce under a different goroutine schedule, not
+	// even stable; the signature names the datagram class that was disturbed last.
+	return fmt.Sprintf("last-fault=%s:%s", tg.From, tg.Class)
 }
 
 func errClass(err error) string {
